@@ -59,11 +59,14 @@ def boom_from(i):
 KINDS = ['assign', 'emit', 'val', 'str', 'for', 'def', 'call', 'if', 'raise', 'raise_multi', 'semi', 'mlist', 'comment_ex',
          'skip', 'ellipsis', 'nws', 'blank', 'dict', 'none', 'ied', 'try', 'pv', 'while', 'with', 'raise_builtin', 'strrepr',
          'float', 'tuple', 'printmulti', 'escstr', 'forval', 'ifval', 'onlyblank', 'ied_dot', 'print_then_raise', 'raise_noted', 'raise_syntax',
-         'raise_group', 'raise_chained', 'raise_nomsg', 'blank_run', 'blank_edges']
+         'raise_group', 'raise_chained', 'raise_nomsg', 'blank_run', 'blank_edges', 'oneline_for', 'oneline_raise',
+         'oneline_ied', 'oneline_silent']
+# compound statements written on one line: the interactive interpreter wants a bare '...' line behind them
+ONELINE = ('oneline_for', 'oneline_raise', 'oneline_ied', 'oneline_silent')
 
 
 def required_cells(tier):
-    return (['kind:' + k for k in KINDS if k != 'pv'] + ['terminated-continuation', 'stack-lines', 'prose-separation',
+    return (['kind:' + k for k in KINDS if k != 'pv'] + ['terminated-continuation', 'terminated-one-liner', 'terminated-one-liner:raises', 'stack-lines', 'prose-separation',
             'indent:0', 'indent:4', 'indent:2', 'indent:8', 'both-pass', 'reindent-after-want:less',
             'reindent-after-want:more', 'corpus:both-pass'])
 
@@ -159,6 +162,14 @@ def gen_example(rng, i, defined):
     elif k == 'ied_dot':
         # the real message holds a period, the documented detail differs and has none
         src = ['boom(%d, "ratio must be below 1.5 (%d)")  # doctest: +IGNORE_EXCEPTION_DETAIL' % (i, i)]
+    elif k == 'oneline_for':
+        src = ['for k in range(2): emit(%d)' % i]
+    elif k == 'oneline_raise':
+        src = ['for k in range(3): boom(%d, "m%d")' % (i, i)]
+    elif k == 'oneline_ied':
+        src = ['if True: boom(%d, "detail%d")  # doctest: +IGNORE_EXCEPTION_DETAIL' % (i, i)]
+    elif k == 'oneline_silent':
+        src = ['for k in range(2): T.append(%d)' % i]
     elif k == 'try':
         src = ['try:', '    boom(%d)' % i, 'except E:', '    emit(-%d)' % i]
     elif k == 'pv':
@@ -223,6 +234,12 @@ def make(seed):
         want = []
         for src in chunks:
             term = rng.random() < 0.3 and len(src) > 1
+            if len(src) == 1 and k not in ('skip', 'comment_ex'):
+                # the bare '...' the interactive interpreter shows after a one-line compound statement (rarely pasted
+                # after a simple statement too); xdoctest reads it as the first line of the want
+                if rng.random() < (0.8 if k in ONELINE else 0.05):
+                    term = True
+                    feats.add('terminated-one-liner' + (':raises' if k in ('oneline_raise', 'oneline_ied') else ''))
             if k in ('skip', 'comment_ex'):
                 out, before, value, exc = '', '', None, None
             else:
@@ -236,7 +253,7 @@ def make(seed):
                 if rng.random() < 0.5:
                     want.append('  File "<stdin>", line 1, in <module>')
                     feats.add('stack-lines')
-                if k in ('ied', 'ied_dot'):
+                if k in ('ied', 'ied_dot', 'oneline_ied'):
                     want.append('E: other detail')
                 else:
                     from xv import models
